@@ -78,6 +78,8 @@ class Connection:
         self.connection_id: int = 0
         self._kill: Optional[KillKind] = None
         self._task: Optional[asyncio.Task] = None
+        # True while a command is being handled, i.e. while there is a query to kill
+        self._executing = False
 
     @property
     def server_charset(self) -> CharacterSet:
@@ -123,9 +125,19 @@ class Connection:
             await self.session.close()
 
     def kill(self, kind: KillKind = KillKind.CONNECTION) -> None:
-        if self._task:
-            self._kill = kind
-            self._task.cancel()
+        if not self._task:
+            return
+        if kind == KillKind.QUERY:
+            # KILL QUERY only aborts the command that is currently being handled.
+            # Cancelling the task at any other time (idle, or while the ERR packet of
+            # a failed or killed command is being sent) would tear down the connection.
+            if not self._executing or self._kill is not None:
+                return
+            # The connection is executing the KILL statement itself: nothing else to abort.
+            if asyncio.current_task() is self._task:
+                return
+        self._kill = kind
+        self._task.cancel()
 
     async def connection_phase(self) -> None:
         default_auth_plugin = self.identity_provider.get_default_plugin()
@@ -300,6 +312,7 @@ class Connection:
             except ConnectionClosed:
                 logger.info("Connection closed")
                 return
+            self._executing = True
             try:
                 command = data[0]
                 rest = data[1:]
@@ -339,6 +352,7 @@ class Connection:
                     )
 
             except MysqlError as e:
+                self._executing = False
                 logger.error(e)
                 await self.stream.write(self.error(msg=e.msg, code=e.code))
             except AuthenticationFailed:
@@ -346,6 +360,7 @@ class Connection:
                 return
             except asyncio.CancelledError:
                 if self._kill == KillKind.QUERY:
+                    self._executing = False
                     logger.info("Query killed on connection %s", self.connection_id)
                     if self._task and hasattr(self._task, "uncancel"):  # python >=3.11
                         self._task.uncancel()
@@ -358,9 +373,11 @@ class Connection:
                 else:
                     raise
             except Exception as e:  # pylint: disable=broad-except
+                self._executing = False
                 logger.exception(e)
                 await self.stream.write(self.error(msg=e))
             finally:
+                self._executing = False
                 self.stream.reset_seq()
 
     async def handle_ping(self, data: bytes) -> None:  # pylint: disable=unused-argument
